@@ -2472,16 +2472,18 @@ FROM (
 
                 id_names = order_ds.get_identifiers_names()
                 if id_names:
-                    inner_sql = registry.sql(op, *ordered_sqls)
+                    # Tag every operand with its position: the datapoint of the FIRST operand that
+                    # has the key wins. (Row order of a UNION ALL is not defined, in particular with
+                    # preserve_insertion_order = false, so it must not decide the winner.)
+                    tagged_sqls = [
+                        f"SELECT {ordered_cols}, {i} AS _src FROM ({sql}) AS _ord"
+                        for i, sql in enumerate(child_sqls)
+                    ]
+                    inner_sql = registry.sql(op, *tagged_sqls)
                     id_cols = ", ".join(quote_name(i) for i in id_names)
-                    # Preserve UNION ALL row order to match pandas drop_duplicates(keep="first").
-                    # QUALIFY keeps the first occurrence per identifier group by insertion order.
                     return (
-                        f"SELECT {ordered_cols} FROM ("
-                        f"SELECT *, ROW_NUMBER() OVER () AS _rn "
-                        f"FROM ({inner_sql}) AS _union_inner"
-                        f") AS _union_t "
-                        f"QUALIFY ROW_NUMBER() OVER (PARTITION BY {id_cols} ORDER BY _rn) = 1"
+                        f"SELECT {ordered_cols} FROM ({inner_sql}) AS _union_t "
+                        f"QUALIFY ROW_NUMBER() OVER (PARTITION BY {id_cols} ORDER BY _src) = 1"
                     )
                 return registry.sql(op, *ordered_sqls)
             return registry.sql(op, *child_sqls)
